@@ -2088,14 +2088,19 @@ def c03_exact(inp):
             datasets.append(y[:, order])
             ref_ind.append([int(p_) for p_ in pos])
         ctx = f"m={m}, setups={nset}, refs={nref}, roving={nmov}, ref_ind={ref_ind}, br={br}, f={np.round(f, 3).tolist()}, trial {trial}"
-        for cls, meth in ((SSIcov_MS, "cov_mm"), (SSIdat_MS, "dat")):
+        # every other trial: ONE multi-setup object carries all the runs (a run must leave the datasets it was given as they were), in either order
+        shared = MultiSetup_PreGER(fs=fs, ref_ind=ref_ind, datasets=[d.copy() for d in datasets]) if trial % 2 else None
+        seq = ((SSIcov_MS, "cov_mm"), (SSIdat_MS, "dat"), (SSIcov_MS, "cov_mm")) if trial % 4 != 1 else ((SSIdat_MS, "dat"), (SSIcov_MS, "cov_mm"), (SSIdat_MS, "dat"))
+        for k_run, (cls, meth) in enumerate(seq):
             try:
-                ms = MultiSetup_PreGER(fs=fs, ref_ind=ref_ind, datasets=[d.copy() for d in datasets])
-                alg = cls(name="a", br=br, ordmax=2 * m + 2, method=meth, hc=dict(conj=True, xi_max=0.2, mpc_lim=0.0, mpd_lim=10.0, cov_max=1e9))
+                ms = shared if shared is not None else MultiSetup_PreGER(fs=fs, ref_ind=ref_ind, datasets=[d.copy() for d in datasets])
+                alg = cls(name=f"a{k_run}", br=br, ordmax=2 * m + 2, method=meth, hc=dict(conj=True, xi_max=0.2, mpc_lim=0.0, mpd_lim=10.0, cov_max=1e9))
                 ms.add_algorithms(alg)
-                ms.run_by_name("a")
+                ms.run_by_name(f"a{k_run}")
             except Exception as e:      # noqa: BLE001
                 return {"reproduced": True, "detail": f"{cls.__name__}({meth}) raised {type(e).__name__}: {e} ({ctx})"}
+            if shared is not None:
+                ctx = ctx.split(" [run ")[0] + f" [run {k_run + 1} on one multi-setup object: {[c_.__name__ for c_, _ in seq[:k_run + 1]]}]"
             res = alg.result
             col = 2 * m
             Fn, Xi, Phi, Lam = res.Fn_poles[:, col], res.Xi_poles[:, col], res.Phi_poles[:, col, :], res.Lambds[:, col]
